@@ -135,6 +135,16 @@ func subParts(r *core.Rng, base []yang.Interval, mergeAdjacent bool) []yang.Inte
 }
 
 var c13Patterns = []string{"[a-z]*", "[a-c]+", "a.*", ".*z", "[a-z0-9]{0,8}", "(ab|cd)*", "[^0-9]*"}
+// c13GapIndex: index i such that there is at least one value between parts i and i+1, or -1.
+func c13GapIndex(parts []yang.Interval) int {
+	for i := 0; i+1 < len(parts); i++ {
+		if add(parts[i].Hi, 1).Cmp(parts[i+1].Lo) < 0 {
+			return i
+		}
+	}
+	return -1
+}
+
 var c13ProbeStrings = []string{"", "a", "z", "abc", "az", "a1", "ab", "abab", "cd", "ABC", "aaaaaaaaaaaa", "zzzz", "a z", "9", "abz", "q"}
 
 func c13Gen(seed int64, idx int) *c13Chain {
@@ -191,6 +201,7 @@ func c13Gen(seed int64, idx int) *c13Chain {
 	lensRestricted := false
 	var pats []string
 	kw := func() bool { return r.Chance(1, 2) }
+	kwInDefect := false // the injected defect may be written with the min / max keywords
 	for lv := 0; lv < nlev; lv++ {
 		var L c13Level
 		defectHere := inject != "" && lv == injectAt
@@ -211,7 +222,19 @@ func c13Gen(seed int64, idx int) *c13Chain {
 				if defectHere {
 					switch inject {
 					case "not-subset":
-						if r.Bool() && baseMax.Cmp(yang.BuiltinRange(ch.kind, ch.bits)[0].Hi) < 0 {
+						if gi := c13GapIndex(cur); gi >= 0 && r.Chance(1, 2) {
+							// one part that spans a gap of the base, written with numbers or with min / max
+							last := len(cur) - 1
+							switch r.Intn(3) {
+							case 0:
+								parts = []yang.Interval{{Lo: cur[0].Lo, Hi: cur[last].Hi}}
+							case 1:
+								parts = []yang.Interval{{Lo: cur[0].Lo, Hi: randIn(r, cur[gi+1].Lo, cur[gi+1].Hi)}}
+							default:
+								parts = []yang.Interval{{Lo: randIn(r, cur[gi].Lo, cur[gi].Hi), Hi: cur[last].Hi}}
+							}
+							kwInDefect = true
+						} else if r.Bool() && baseMax.Cmp(yang.BuiltinRange(ch.kind, ch.bits)[0].Hi) < 0 {
 							parts[len(parts)-1].Hi = add(baseMax, 1)
 						} else if baseMin.Cmp(yang.BuiltinRange(ch.kind, ch.bits)[0].Lo) > 0 {
 							parts[0].Lo = add(baseMin, -1)
@@ -254,7 +277,7 @@ func c13Gen(seed int64, idx int) *c13Chain {
 				if artificial {
 					baseMin, baseMax = nil, nil
 				}
-				L.rangeArg = yang.RangeArg(parts, ch.fd, baseMin, baseMax, func() bool { return ch.defect == "" && kw() })
+				L.rangeArg = yang.RangeArg(parts, ch.fd, baseMin, baseMax, func() bool { return (ch.defect == "" || kwInDefect) && kw() })
 				if ch.defect == "" {
 					cur = parts
 					trueSet = parts
@@ -281,7 +304,18 @@ func c13Gen(seed int64, idx int) *c13Chain {
 				if defectHere {
 					switch inject {
 					case "not-subset":
-						if lensRestricted {
+						if gi := c13GapIndex(curLens); gi >= 0 && lensRestricted && r.Chance(1, 2) {
+							last := len(curLens) - 1
+							switch r.Intn(3) {
+							case 0:
+								parts = []yang.Interval{{Lo: curLens[0].Lo, Hi: curLens[last].Hi}}
+							case 1:
+								parts = []yang.Interval{{Lo: curLens[0].Lo, Hi: curLens[gi+1].Lo}}
+							default:
+								parts = []yang.Interval{{Lo: curLens[gi].Hi, Hi: curLens[last].Hi}}
+							}
+							kwInDefect = true
+						} else if lensRestricted {
 							parts[len(parts)-1].Hi = add(baseMax, 1)
 						} else {
 							defectHere, inject = false, ""
@@ -308,7 +342,7 @@ func c13Gen(seed int64, idx int) *c13Chain {
 						ch.defect = inject
 					}
 				}
-				L.lengthArg = yang.RangeArg(parts, 0, baseMin, baseMax, func() bool { return ch.defect == "" && kw() })
+				L.lengthArg = yang.RangeArg(parts, 0, baseMin, baseMax, func() bool { return (ch.defect == "" || kwInDefect) && kw() })
 				if ch.defect == "" {
 					curLens = parts
 					lensRestricted = true
